@@ -555,3 +555,83 @@ pub fn standard_resources() -> Vec<ResDef> {
         rd("fn.js", &[], "fn/javascript", "function fnjs(){}", 0),
     ]
 }
+
+// ---------------------------------------------------------------------------------------------
+// Bucket-sharing clusters (C05, C04, C06, C07): groups of rules that index under one token and
+// differ in a single aspect each, so that they land in the same bucket and (when their masks are
+// equal) in the same fusion group.
+// ---------------------------------------------------------------------------------------------
+
+pub fn gen_cluster(r: &mut Rng, p: &Profile) -> Vec<String> {
+    let tok = r.ps(&["advert", "banner", "track", "pixel", "foo"]);
+    let n = 3 + r.below(8);
+    let mut out = vec![];
+    // a small option pool so that masks repeat (=> fusion groups of size > 1)
+    let pool: Vec<&str> = vec!["", "", "", "script", "image", "script,image", "third-party", "~third-party", "xhr"];
+    for _ in 0..n {
+        let mut s = String::new();
+        let exception = p.exceptions && r.chance(1, 5);
+        if exception {
+            s.push_str("@@");
+        }
+        let shape = r.below(12);
+        match shape {
+            0 => s.push_str(&format!("/{}/{}", tok, r.ps(&["a", "b", "c", "d", "1", "2"]))),
+            1 => s.push_str(&format!("/{}-{}.", tok, r.ps(&["a", "b", "x"]))),
+            2 => s.push_str(&format!("/{}*{}", tok, r.ps(&["a=", "b/", "x1"]))),
+            3 => s.push_str(&format!("/{}^", tok)),
+            4 => s.push_str(&format!("/{}/{}|", tok, r.ps(&["a", "b"]))),
+            5 => s.push_str(&format!("|https://ads.net/{}/", tok)),
+            6 => s.push_str(&format!("||ads.net/{}/", tok)),
+            7 => {
+                if p.full_regex {
+                    s.push_str(&format!("/\\/{}\\/[ab]\\d?/", tok))
+                } else {
+                    s.push_str(&format!("/{}/", tok))
+                }
+            }
+            8 => s.push_str(&format!("/{}/", tok)),
+            9 => s.push_str(&format!("_{}_", tok)),
+            10 => s.push_str(&format!("/{}/*/{}", tok, r.ps(&["a", "bar"]))),
+            _ => s.push_str(&format!("/{}.{}", tok, r.ps(&["js", "gif", "a"]))),
+        }
+        let mut opts: Vec<String> = vec![];
+        let o = r.ps(&pool);
+        if !o.is_empty() {
+            opts.push(o.to_string());
+        }
+        match r.below(16) {
+            0 if p.important && !exception => opts.push("important".into()),
+            1 if p.tags => opts.push(format!("tag={}", r.ps(TAGS))),
+            2 if p.domains => opts.push(format!("domain={}", r.ps(HOSTS))),
+            3 if p.redirect => opts.push(format!("redirect={}", r.ps(&["noop.js", "1x1.gif"]))),
+            4 if p.csp => {
+                opts.retain(|o| o.contains("party"));
+                opts.push(format!("csp={}", r.ps(CSP_DIRECTIVES)));
+            }
+            5 if p.full_regex && shape == 7 => opts.push("match-case".into()),
+            _ => {}
+        }
+        if !opts.is_empty() {
+            s.push('$');
+            s.push_str(&opts.join(","));
+        }
+        out.push(s);
+    }
+    out
+}
+
+/// A list made of a few clusters plus some unrelated rules, shuffled.
+pub fn gen_clustered_list(r: &mut Rng, p: &Profile) -> Vec<String> {
+    let mut rules = vec![];
+    let k = 1 + r.below(3);
+    for _ in 0..k {
+        rules.extend(gen_cluster(r, p));
+    }
+    let extra = r.below(6);
+    for _ in 0..extra {
+        rules.push(gen_rule(r, p));
+    }
+    r.shuffle(&mut rules);
+    rules
+}
